@@ -74,6 +74,8 @@ type Knobs struct {
 	PQueueDepth                float64 // C16: probability of a finite per-action queue depth for allocate
 	PExtremePriority           float64 // workload priority class with a value near the int32 limits
 	PDanglingQueue             float64 // the cluster contains 1-2 pending pod groups whose queue does not exist
+	// DRA (see dra.go): probability that the case contains resource.k8s.io objects; 0 = no extra draws, no objects
+	PDRA float64
 }
 
 var allActions = "allocate, consolidation, reclaim, preempt, stalegangeviction"
@@ -102,6 +104,7 @@ func Profile(name string) Knobs {
 	case "tight": // C01
 		k.Fill, k.PTerminating, k.PBinding = 0.7, 0.3, 0.15
 		k.PSmallPods = 0.4
+		k.PDRA = 0.3 // DRA (dra.go)
 	case "fractions": // C02
 		k.NodesMax = 3
 		k.GPUChoices = []int{1, 2, 2, 4}
@@ -172,6 +175,7 @@ func Profile(name string) Knobs {
 		k.ActionsChoices = []string{allActions, allActions, "allocate, reclaim, preempt", "allocate, consolidation, reclaim"}
 		k.KindWeights = map[string]int{"cpu": 1, "whole": 7, "fraction": 3, "gpumem": 1}
 		k.PNotReady, k.PUnschedulable = 0, 0
+		k.PDRA = 0.3 // DRA (dra.go)
 	case "accounting": // C13 / C14: many simulated steps, shared GPUs, solver actions
 		k.PStaleGang = 0.12
 		k.Fill, k.PTerminating, k.PBinding = 0.75, 0.2, 0.1
@@ -181,6 +185,7 @@ func Profile(name string) Knobs {
 		k.PFaults = 0.2
 		k.NoEvictCallFaults = true
 		k.PTopology = 0.1
+		k.PDRA = 0.35 // DRA (dra.go)
 	case "mixed":
 	}
 	return k
@@ -277,6 +282,7 @@ func GenerateWith(k Knobs, profile string, seed int64, index int, tier string) *
 	}
 	g.staleGangs()
 	LabelForNodePool(g.c)
+	g.genDRA() // DRA (dra.go): last drawing step; draws nothing when PDRA == 0
 	return g.c
 }
 
